@@ -264,7 +264,7 @@ func workerMain() {
 			os.Rename(tmp, opt.out)
 		}
 	}
-	caseTimeout := 10 * time.Second
+	caseTimeout := 40 * time.Second
 	lastFlush := time.Now()
 	skip := map[string]bool{}
 	for _, f := range strings.Split(opt.skip, ",") {
